@@ -60,4 +60,47 @@ ImplItems(t, rows) ==
      LET lr == <<FindLine(t, rows[i][1]), FindLine(t, rows[i][2] - 1)>> IN
      [lr |-> lr, block |-> ImplItemBlock(t, rows[i][1], rows[i][2], lr),
       status |-> IF rows[i][4] = 1 THEN "Ready" ELSE "Pending"]]
+
+(***************************************************************************)
+(* The pretty form (coloring = true) and build_pretty_string: header lines, *)
+(* ANSI colours around the markers and around every line of the region.     *)
+(***************************************************************************)
+Esc(code) == <<27, 91>> \o code \o <<109>>
+ColGreen == Esc(<<51, 50>>)      \* ESC[32m  markers
+ColRed   == Esc(<<51, 49>>)      \* ESC[31m  ready region
+ColYel   == Esc(<<51, 51>>)      \* ESC[33m  pending region
+ColReset == Esc(<<48>>)
+
+ImplItemPretty(t, s, e, ready, lr) ==
+  IF e - s = 0 \/ t = <<>> THEN <<>>
+  ELSE LET ps == FindPrev(t, s, FALSE)
+           lineStart == IF ps = -1 THEN 0 ELSE ps + 1
+           pe == FindPrev(t, e - 1, FALSE)
+           lineEndStart == IF pe = -1 THEN 0 ELSE pe + 1
+           ne == FindNext(t, e - 1, FALSE)
+           lineEnd == IF ne = -1 THEN Len(t) ELSE ne
+           colorEnd == Min2(e, lineEnd)
+           col == IF ready THEN ColRed ELSE ColYel
+           hl == LinesOfStr(Slice(t, s, colorEnd))
+           removed == Slice(t, lineStart, s) \o JoinWithNL([i \in 1..Len(hl) |-> col \o hl[i] \o ColReset])
+                      \o Slice(t, colorEnd, lineEnd) \o <<NL>>
+           block == NumberedLines(LinesOfStr(removed), 1, lr[1], lr[2])
+           p1 == Slice(t, lineStart, s)
+           p2 == Slice(t, lineEndStart, e)
+           t1 == CountTab(p1)
+           t2 == CountTab(p2)
+       IN RepeatCh(SP, 4 * t1) \o RepeatCh(SP, 9 + ByteLen(p1) - t1) \o ColGreen \o <<95, 115, 116, 97, 114, 116>> \o ColReset \o <<NL>>
+          \o Expand(block)
+          \o RepeatCh(SP, 4 * t2) \o RepeatCh(SP, ByteLen(p2) - 1 + 9 - t2) \o ColGreen \o <<8254, 101, 110, 100>> \o ColReset
+
+HeadStart == <<45, 45, 45, 45, 45, 45, 45, 45, 32, 91, 32>>                   \* "-------- [ "
+HeadReady == <<32, 93, 32, 32, 82, 101, 97, 100, 121, 32, 32>>                 \* " ]  Ready  "
+HeadPend  == <<32, 93, 32, 80, 101, 110, 100, 105, 110, 103, 32>>              \* " ] Pending "
+HeadEnd   == <<45, 45, 45, 45, 45, 45, 45, 45>>
+
+ImplPretty(t, rows) ==
+  ConcatAll([i \in 1..Len(rows) |->
+     LET lr == <<FindLine(t, rows[i][1]), FindLine(t, rows[i][2] - 1)>> IN
+     <<NL>> \o HeadStart \o Digits(i) \o (IF rows[i][4] = 1 THEN HeadReady ELSE HeadPend) \o HeadEnd \o <<NL>>
+     \o ImplItemPretty(t, rows[i][1], rows[i][2], rows[i][4] = 1, lr)]) \o <<NL>>
 =============================================================================
